@@ -224,7 +224,7 @@ prop("C06",
 
 prop("C03",
      modules=["Emu2a.Props.C03", "Emu2a.Props.C03x.Family", "Emu2a.Props.C03x.Total"],
-     theorems=["Emu2a.C03.parse_never_panics", "Emu2a.Peg.run_sound", "Emu2a.Peg.run_mono", "Emu2a.Peg.run_agree",
+     theorems=["Emu2a.C03.parse_never_panics", "Emu2a.C03.parse_decides", "Emu2a.C03.file_height", "Emu2a.Peg.run_not_oof", "Emu2a.Peg.run_sound", "Emu2a.Peg.run_mono", "Emu2a.Peg.run_agree",
                "Emu2a.C03.X_holds", "Emu2a.C03.run_wf", "Emu2a.C03.parseInstruction_ok", "Emu2a.C03.parseLine_ok",
                "Emu2a.C03.number_byte_ok", "Emu2a.C03.number_word_ok", "Emu2a.C03.constant_dec_ok", "Emu2a.C03.word_dec_ok",
                "Emu2a.C03.constant_bin_ok", "Emu2a.C03.constant_hex_ok", "Emu2a.C03.parseRegister_ok", "Emu2a.C03.parseMemory_ok",
@@ -234,7 +234,7 @@ prop("C03",
      harness="c03",
      shrink=False,
      exhaustive={"quick": False, "thorough": False},
-     level_text="PARTIAL (language equality is not a theorem). The model of the parser is a PEG interpreter over the grammar REGENERATED from mrasm.pest on every run (tools/gen_grammar.py; three outcomes: match, real failure, out of fuel - run_mono: an answer never changes with more fuel, so a failed alternative is a real failure) plus hand-written AST builders in which every unwrap/expect/unreachable!/inner_tuple! of implementation/mod.rs is an explicit `panic <site>` outcome. THEOREM parse_never_panics (build_total): for EVERY input text and every fuel the parser model never ends in a panic outcome - via run_sound (generic PEG metatheory: whatever the interpreter returns lies in a denotation of the expression that fixes the consumed text and the inner tokens, and every token tree is well-formed recursively), per-rule facts computed from the regenerated grammar (choicesOf: the possible inner-token sequences of each of the 94 rules; number rules: every text constant_bin/hex/dec and word_bin/hex/dec can match is a non-empty digit string whose value is below 256 / 65536, so from_str_radix(..).unwrap() cannot fail - decimal alternatives by kernel evaluation of their digit ranges, binary/hex by a 2^k / 16^k bound for any number of leading zeros), X_holds (the `raw_label` alternative of `memory` is dead because `constant` takes every label first - ordered choice, from fuel monotonicity), one generated lemma per alternative of `instruction` (81) and totality of every builder on well-formed trees. Further theorems: every numeric value a builder returns is below the limit of its type (fromRadix_bound), label validation rejects exactly >40 definitions / a reference without a case-insensitive definition (validate_spec); reject_family / accept_family / label_limit: kernel evaluation of the model parser on 33 boundary rejects, 11 accepts right below the boundaries with their ASTs, and 40 / 41 label definitions (tests, labelled as such). NOT a theorem: language equality with a description independent of the grammar file and that the returned AST lists what was written; decided up to the correspondence: real pest parser vs the model on generated programs whose AST is known by construction (spec.parse), single-token mutations, directed accept/reject boundaries, digit-less / signed literals and undefined labels in every operand position, raw byte/Unicode strings under catch_unwind (spec.noparsepanic)",
+     level_text="PARTIAL (language equality is not a theorem). The model of the parser is a PEG interpreter over the grammar REGENERATED from mrasm.pest on every run (tools/gen_grammar.py; three outcomes: match, real failure, out of fuel - run_mono: an answer never changes with more fuel, so a failed alternative is a real failure) plus hand-written AST builders in which every unwrap/expect/unreachable!/inner_tuple! of implementation/mod.rs is an explicit `panic <site>` outcome. THEOREM parse_never_panics (build_total): for EVERY input text and every fuel the parser model never ends in a panic outcome - via run_sound (generic PEG metatheory: whatever the interpreter returns lies in a denotation of the expression that fixes the consumed text and the inner tokens, and every token tree is well-formed recursively), per-rule facts computed from the regenerated grammar (choicesOf: the possible inner-token sequences of each of the 94 rules; number rules: every text constant_bin/hex/dec and word_bin/hex/dec can match is a non-empty digit string whose value is below 256 / 65536, so from_str_radix(..).unwrap() cannot fail - decimal alternatives by kernel evaluation of their digit ranges, binary/hex by a 2^k / 16^k bound for any number of leading zeros), X_holds (the `raw_label` alternative of `memory` is dead because `constant` takes every label first - ordered choice, from fuel monotonicity), one generated lemma per alternative of `instruction` (81) and totality of every builder on well-formed trees. parse_decides: with the fuel the driver uses (80 + 4 x length; 80 = the static height of the `file` rule, computed by the kernel from the regenerated grammar) the interpreter never answers out-of-fuel, by run_not_oof (fuel >= height + input length suffices for any grammar: every iteration of a repetition strictly shortens the input) - so `syntax error` from the model is a real rejection. Further theorems: every numeric value a builder returns is below the limit of its type (fromRadix_bound), label validation rejects exactly >40 definitions / a reference without a case-insensitive definition (validate_spec); reject_family / accept_family / label_limit: kernel evaluation of the model parser on 33 boundary rejects, 11 accepts right below the boundaries with their ASTs, and 40 / 41 label definitions (tests, labelled as such). NOT a theorem: language equality with a description independent of the grammar file and that the returned AST lists what was written; decided up to the correspondence: real pest parser vs the model on generated programs whose AST is known by construction (spec.parse), single-token mutations, directed accept/reject boundaries, digit-less / signed literals and undefined labels in every operand position, raw byte/Unicode strings under catch_unwind (spec.noparsepanic)",
      technique="Lean 4 PEG metatheory (denotation + soundness of the interpreter, fuel monotonicity) over the grammar translated from mrasm.pest, totality of the AST builders on every well-formed token tree (81 generated per-instruction lemmas), number-range proofs + differential search against the real pest parser with construction-known ASTs",
      rule="generated (AST, text) pairs over every instruction form, radix, leading zeros, case and spacing variants (`parse` = real result vs model result, `spec.parse` = real result vs the AST the text was written from), two single-token mutations of each, 30 directed rejects + 105 programs that reference an undefined label in every operand position and 8 directed boundary accepts, raw strings over an mrasm-biased and a Unicode alphabet (`spec.noparsepanic`); distinct = distinct texts",
      explanation="a difference on a `spec.` line is a concrete input on which the real parser returns the wrong program, accepts/rejects wrongly, or panics",
